@@ -385,7 +385,7 @@ def location_dims(part):
 
 
 def _location_point(idx):
-    status_i, loc_i, method_i, has_body, (hv, container) = decode_point(idx, location_dims(P))
+    status_i, loc_i, method_i, has_body, (hv, container) = decode_point(idx, location_dims)
     return N._untraced(_location_body)(P.front, status_i, loc_i, method_i, has_body, hv, container)
 
 
@@ -472,7 +472,7 @@ def chain_dims(part):
 
 
 def _chain_point(idx):
-    (kind, k, j, ror), layer, route_i, status_i = decode_point(idx, chain_dims(P))
+    (kind, k, j, ror), layer, route_i, status_i = decode_point(idx, chain_dims)
     return N._untraced(_chain_body)(kind, k, j, ror, layer, route_i, status_i)
 
 
